@@ -83,6 +83,7 @@ func (fr *Frame) clone() *Frame {
 type Result struct {
 	st  *State
 	ret Val
+	fr  *Frame
 }
 
 func (ex *Exec) warn(format string, a ...interface{}) {
@@ -717,7 +718,7 @@ func (ex *Exec) runFrom(fr *Frame, b *ssa.BasicBlock, idx int, st *State) []Resu
 					}
 					ret = tv
 				}
-				return []Result{{st, ret}}
+				return []Result{{st, ret, fr}}
 			case *ssa.Panic:
 				what := "explicit"
 				ex.oblige(st, "nopanic", ex.fnPrefix+"#nopanic:"+what, False, x.Pos())
@@ -1573,6 +1574,59 @@ func (ex *Exec) obPrefixFor(fr *Frame) string {
 // havocLoop forgets everything the loop body may modify.
 func (ex *Exec) havocLoop(fr *Frame, lp *Loop, st *State) {
 	touchWorld := false
+	touched := map[int]bool{} // worlds reachable from the contexts passed to state-changing calls
+	allWorlds := false
+	noteCtx := func(c *ssa.CallCommon) {
+		found := false
+		vals := append([]ssa.Value{}, c.Args...)
+		if c.IsInvoke() {
+			vals = append(vals, c.Value)
+		}
+		for _, a := range vals {
+			var v Val
+			for {
+				if mi, ok := a.(*ssa.MakeInterface); ok {
+					a = mi.X
+				} else if ci, ok := a.(*ssa.ChangeInterface); ok {
+					a = ci.X
+				} else if ct, ok := a.(*ssa.ChangeType); ok {
+					a = ct.X
+				} else {
+					break
+				}
+			}
+			if x, ok := fr.env[a]; ok {
+				v = x
+			} else if u, ok := a.(*ssa.UnOp); ok && u.Op == token.MUL {
+				if al, ok := u.X.(*ssa.Alloc); ok {
+					if p, ok := fr.env[al].(*PtrV); ok {
+						if c, has := st.heap[p.Obj.id]; has {
+							v = c
+						}
+					}
+				}
+			}
+			switch q := v.(type) {
+			case *CtxV:
+				touched[q.World] = true
+				found = true
+			case *StoreV:
+				touched[q.World] = true
+				found = true
+			case *IfaceV:
+				if cc := ex.ctxOf(q); cc != nil {
+					touched[cc.World] = true
+					found = true
+				}
+			}
+		}
+		if !found {
+			allWorlds = true
+			if os.Getenv("ICSVC_DEBUG_HAVOC") != "" {
+				fmt.Fprintf(os.Stderr, "havoc: loop %d of %s: no ctx found for call %s\n", lp.ordinal, fr.fn.Name(), calleeName(c))
+			}
+		}
+	}
 	havocObj := map[int]*Obj{}
 	cells := map[*ssa.Alloc]bool{}
 	var visitAddr func(v ssa.Value)
@@ -1662,6 +1716,7 @@ func (ex *Exec) havocLoop(fr *Frame, lp *Loop, st *State) {
 				eff := ex.callEffects(fr, x.Common())
 				if eff.world {
 					touchWorld = true
+					noteCtx(x.Common())
 				}
 				if eff.iter {
 					// iterator advanced: havoc the iterator objects passed / invoked on
@@ -1756,6 +1811,9 @@ func (ex *Exec) havocLoop(fr *Frame, lp *Loop, st *State) {
 	}
 	if touchWorld {
 		for id, w := range st.worlds {
+			if !allWorlds && !touched[id] {
+				continue
+			}
 			st.worlds[id] = &World{S: Fresh("hvS", SStore), X: Fresh("hvX", SXState), E: Fresh("hvE", w.E.Sort)}
 		}
 	}
